@@ -1330,7 +1330,14 @@ def _model_to_sbml(
         specie.setCompartment(metabolite.compartment)
         s_fbc: "libsbml.FbcSpeciesPlugin" = specie.getPlugin("fbc")
         if metabolite.charge is not None:
-            s_fbc.setCharge(metabolite.charge)
+            # fbc:charge is an integer attribute, libsbml mangles a float
+            if float(metabolite.charge).is_integer():
+                s_fbc.setCharge(int(metabolite.charge))
+            else:
+                LOGGER.warning(
+                    f"Non-integer charge '{metabolite.charge}' of metabolite "
+                    f"'{metabolite.id}' cannot be written to SBML."
+                )
         if metabolite.formula is not None:
             s_fbc.setChemicalFormula(metabolite.formula)
 
